@@ -731,6 +731,7 @@ def sector_window_obligations(P, hmax=359):
         if any(d.startswith("unknown test") for d, _ in I.path):
             sel = None  # the selection rests on a branch the interpreter could only guess
         calls.append((sel, list(I.constraints), I.loop_stack[-1] if I.loop_stack else None, getattr(node, "lineno", 0)))
+        I.event("median-call", node, None)
         return alg.sym("sector_median")
 
     try:
@@ -738,6 +739,12 @@ def sector_window_obligations(P, hmax=359):
                            stubs={"numpy.nanmedian": nanmedian, "numpy.median": nanmedian}, max_paths=20000)
     except AnalysisError as e:
         return [req_ob("R-SECTOR", site, "the sector loop is interpretable", None, detail=str(e))]
+    # a half window of one degree or more is smoothed (the documented threshold): no path for h >= 1 returns without sector medians
+    raw = [r for r in res if r.kind == "return" and not any(e[0] == "median-call" for e in r.events)]
+    solid = [r for r in raw if not any(d.startswith("unknown test") for d, _ in r.path)]
+    obs.append(req_ob("R-KM-Z0", site, "a half window of one degree or more is smoothed: no such call returns without taking sector medians", (not raw) if (solid or not raw) else None,
+                      detail=None if not raw else "for %s the raw estimate is returned" % ("; ".join("%s is %s" % (d[:50], b) for d, b in raw[0].path if "half_wd_win" in d)[:160] or "some half window of one or more"),
+                      key={"clause": "threshold"}))
     carried = sorted({(e[1], e[2]) for r in res for e in r.events if e[0] == "loop-carried-read"})
     obs.append(req_ob("R-SECTOR", site, "every sector is evaluated independently: no array contents are carried from one iteration of the sector loop into the next", not carried,
                       detail="; ".join("%s: %s" % c for c in carried[:2]) or None, key={"clause": "independent-sectors"}))
